@@ -8,6 +8,7 @@ import (
 	"go/token"
 	"path/filepath"
 	"sort"
+	"strconv"
 	"strings"
 
 	"verifharness/gen"
@@ -270,7 +271,7 @@ func genRules(repo string) (string, error) {
 		return "", fmt.Errorf("buildField / buildProperty / buildScalarType not found")
 	}
 	var sb strings.Builder
-	sb.WriteString("From Coq Require Import List.\nFrom J5V.model Require Import RulesDecl.\nImport ListNotations.\n")
+	sb.WriteString("From Coq Require Import List NArith ZArith.\nFrom J5V.model Require Import RulesDecl.\nImport ListNotations.\n")
 	sb.WriteString("Inductive cond := CondNotExclusive | CondExclusive | CondFlagPresent | CondFlagAbsent | CondOther.\n")
 	sb.WriteString("Inductive rfield := RLt | RLte | RGt | RGte | ROtherField.\n")
 	sb.WriteString("(* fields.go buildField, integer rules: (format, is the maximum, condition on the exclusive flag,\n   rule assigned when it holds, rule assigned otherwise) *)\n")
@@ -353,6 +354,198 @@ func genRules(repo string) (string, error) {
 		}
 		return true
 	})
+	// ---- the map branch of buildProperty: condition under which (buf.validate.field).map is emitted
+	mapCond := "?"
+	ast.Inspect(bp, func(nd ast.Node) bool {
+		ifs, ok := nd.(*ast.IfStmt)
+		if !ok {
+			return true
+		}
+		c := src(fsetW, ifs.Cond)
+		if strings.Contains(c, "valueValidate != nil") {
+			mapCond = c
+			return false
+		}
+		return true
+	})
+	mcls := "ArrCondOther"
+	switch mapCond {
+	case "valueValidate != nil || st.Map.Rules != nil", "st.Map.Rules != nil || valueValidate != nil":
+		mcls = "ArrItemsOrRules"
+	case "valueValidate != nil":
+		mcls = "ArrItemsOnly"
+	}
+	fmt.Fprintf(&sb, "(* fields.go buildProperty, map branch: when (buf.validate.field).map is emitted *)\nDefinition writer_map_cond : arr_cond := %s. (* %s *)\n", mcls, mapCond)
+
+	// ---- checkIntegerBounds: the range per format and the minimum > maximum check
+	cib := findFunc(w, "checkIntegerBounds")
+	if cib == nil {
+		return "", fmt.Errorf("checkIntegerBounds not found")
+	}
+	consts := map[string]string{"math.MinInt32": "(-2147483648)", "math.MaxInt32": "2147483647", "math.MinInt64": "(-9223372036854775808)",
+		"math.MaxInt64": "9223372036854775807", "math.MaxUint32": "4294967295", "0": "0"}
+	type brange struct{ kind, lo, hi string }
+	var ranges []brange
+	ast.Inspect(cib, func(nd ast.Node) bool {
+		cc, ok := nd.(*ast.CaseClause)
+		if !ok || len(cc.List) != 1 {
+			return true
+		}
+		kind, ok := kindOfFormat[strings.TrimPrefix(src(fsetW, cc.List[0]), "schema_j5pb.")]
+		if !ok {
+			return true
+		}
+		for _, st := range cc.Body {
+			if as, ok := st.(*ast.AssignStmt); ok && len(as.Lhs) == 2 && len(as.Rhs) == 2 && src(fsetW, as.Lhs[0]) == "lo" && src(fsetW, as.Lhs[1]) == "hi" {
+				lo, ok1 := consts[src(fsetW, as.Rhs[0])]
+				hi, ok2 := consts[src(fsetW, as.Rhs[1])]
+				if !ok1 {
+					lo = "0 (* unrecognised: " + src(fsetW, as.Rhs[0]) + " *)"
+					kind = "I32 (* unrecognised bound *)"
+				}
+				if !ok2 {
+					hi = "0 (* unrecognised: " + src(fsetW, as.Rhs[1]) + " *)"
+				}
+				ranges = append(ranges, brange{kind, lo, hi})
+			}
+		}
+		return true
+	})
+	sort.Slice(ranges, func(i, j int) bool { return ranges[i].kind < ranges[j].kind })
+	sb.WriteString("(* fields.go checkIntegerBounds: (format, lowest, highest bound a rule may carry) *)\nDefinition writer_int_ranges : list (ikind * Z * Z) := [")
+	for i, b := range ranges {
+		if i > 0 {
+			sb.WriteString("; ")
+		}
+		fmt.Fprintf(&sb, "(%s, %s, %s)", b.kind, b.lo, b.hi)
+	}
+	sb.WriteString("]%Z.\n")
+	// which comparisons reject: bound < lo, bound > hi (for minimum and maximum), minimum > maximum
+	var rejects []string
+	ast.Inspect(cib, func(nd ast.Node) bool {
+		if ifs, ok := nd.(*ast.IfStmt); ok {
+			rejects = append(rejects, src(fsetW, ifs.Cond))
+		}
+		return true
+	})
+	sort.Strings(rejects)
+	has := func(c string) bool {
+		for _, r := range rejects {
+			if r == c {
+				return true
+			}
+		}
+		return false
+	}
+	fmt.Fprintf(&sb, "(* ... and its three checks as written *)\nDefinition writer_checks_minimum_range : bool := %v.\nDefinition writer_checks_maximum_range : bool := %v.\nDefinition writer_checks_order : bool := %v.\n",
+		has("rules.Minimum != nil && (*rules.Minimum < lo || *rules.Minimum > hi)"),
+		has("rules.Maximum != nil && (*rules.Maximum < lo || *rules.Maximum > hi)"),
+		has("rules.Minimum != nil && rules.Maximum != nil && *rules.Minimum > *rules.Maximum"))
+	// is checkIntegerBounds called from buildField before the rules are built?
+	called := false
+	ast.Inspect(bf, func(nd ast.Node) bool {
+		if ce, ok := nd.(*ast.CallExpr); ok && src(fsetW, ce.Fun) == "checkIntegerBounds" {
+			called = true
+		}
+		return true
+	})
+	fmt.Fprintf(&sb, "Definition writer_calls_check_integer_bounds : bool := %v.\n", called)
+
+	// ---- rules the writer reduces to nothing: float (refused), object / oneof (empty constraint), timestamp (empty TimestampRules)
+	floatRefused, objEmpty, oneofEmpty, tsEmpty := false, false, false, false
+	emptyLit := func(body *ast.BlockStmt, typ string) bool {
+		found := false
+		ast.Inspect(body, func(nd ast.Node) bool {
+			if cl, ok := nd.(*ast.CompositeLit); ok && src(fsetW, cl.Type) == typ && len(cl.Elts) == 0 {
+				found = true
+			}
+			return true
+		})
+		return found
+	}
+	ast.Inspect(bf, func(nd ast.Node) bool {
+		ifs, ok := nd.(*ast.IfStmt)
+		if !ok {
+			return true
+		}
+		switch src(fsetW, ifs.Cond) {
+		case "st.Float.Rules != nil":
+			if len(ifs.Body.List) == 1 {
+				if rs, ok := ifs.Body.List[0].(*ast.ReturnStmt); ok && len(rs.Results) == 2 && src(fsetW, rs.Results[0]) == "nil" {
+					floatRefused = true
+				}
+			}
+		case "st.Object.Rules != nil":
+			objEmpty = emptyLit(ifs.Body, "validate.FieldConstraints")
+		case "st.Oneof.Rules != nil":
+			oneofEmpty = emptyLit(ifs.Body, "validate.FieldConstraints")
+		case "st.Timestamp.Rules != nil":
+			tsEmpty = emptyLit(ifs.Body, "validate.TimestampRules")
+		}
+		return true
+	})
+	fmt.Fprintf(&sb, "(* fields.go: float rules are refused; object / oneof rules become an empty FieldConstraints; timestamp rules an empty TimestampRules *)\nDefinition writer_float_rules_refused : bool := %v.\nDefinition writer_object_rules_empty : bool := %v.\nDefinition writer_oneof_rules_empty : bool := %v.\nDefinition writer_timestamp_rules_empty : bool := %v.\n",
+		floatRefused, objEmpty, oneofEmpty, tsEmpty)
+
+	// ---- the reader's wellKnownStringPatterns: literal pattern -> format name; id62.PatternString -> ?
+	var wk [][2]string
+	wkID := ""
+	ast.Inspect(r, func(nd ast.Node) bool {
+		vs, ok := nd.(*ast.ValueSpec)
+		if !ok || len(vs.Names) != 1 || vs.Names[0].Name != "wellKnownStringPatterns" || len(vs.Values) != 1 {
+			return true
+		}
+		cl, ok := vs.Values[0].(*ast.CompositeLit)
+		if !ok {
+			return true
+		}
+		consts := map[string]string{}
+		ast.Inspect(r, func(n2 ast.Node) bool {
+			if v2, ok := n2.(*ast.ValueSpec); ok && len(v2.Names) == len(v2.Values) {
+				for i, nm := range v2.Names {
+					if bl, ok := v2.Values[i].(*ast.BasicLit); ok && bl.Kind == token.STRING {
+						if u, err := strconv.Unquote(bl.Value); err == nil {
+							consts[nm.Name] = u
+						}
+					}
+				}
+			}
+			return true
+		})
+		for _, e := range cl.Elts {
+			kv, ok := e.(*ast.KeyValueExpr)
+			if !ok {
+				continue
+			}
+			val := consts[src(fsetR, kv.Value)]
+			if bl, ok := kv.Key.(*ast.BasicLit); ok && bl.Kind == token.STRING {
+				if u, err := strconv.Unquote(bl.Value); err == nil {
+					wk = append(wk, [2]string{u, val})
+				}
+			} else if src(fsetR, kv.Key) == "id62.PatternString" {
+				wkID = val
+			}
+		}
+		return false
+	})
+	sort.Slice(wk, func(i, j int) bool { return wk[i][0] < wk[j][0] })
+	bytesTerm := func(s string) string {
+		parts := make([]string, len(s))
+		for i := 0; i < len(s); i++ {
+			parts[i] = fmt.Sprint(s[i])
+		}
+		return "[" + strings.Join(parts, ";") + "]%N"
+	}
+	sb.WriteString("(* schema_from_proto.go wellKnownStringPatterns: literal pattern -> format; and the format of id62.PatternString *)\nDefinition reader_wellknown_literals : list (list N * list N) := [")
+	for i, x := range wk {
+		if i > 0 {
+			sb.WriteString("; ")
+		}
+		fmt.Fprintf(&sb, "(%s, %s)", bytesTerm(x[0]), bytesTerm(x[1]))
+	}
+	sb.WriteString("].\n")
+	fmt.Fprintf(&sb, "Definition reader_wellknown_id62_format : list N := %s.\n", bytesTerm(wkID))
+
 	fmt.Fprintf(&sb, "(* the key:id62 arm of the writer assigns stringRules.Pattern = id62.PatternString; the reader's\n   wellKnownStringPatterns maps id62.PatternString to the id62 format *)\nDefinition writer_id62_published : bool := %v.\nDefinition reader_id62_published : bool := %v.\n", idArm, idRead)
 	return sb.String(), nil
 }
